@@ -23,7 +23,7 @@ import (
 )
 
 type c01dPhase struct {
-	K     string `json:"k"` // acq | rel | set
+	K     string `json:"k"` // acq | rel | set | rebuild (limiter subjects: a new limiter over the live strategy)
 	N     int    `json:"n"`
 	Order string `json:"order,omitempty"` // rel: oldest | newest | stride
 	Out   int    `json:"out,omitempty"`   // limiter subjects: completion outcome 0 success 1 ignore 2 dropped
@@ -44,6 +44,8 @@ func genC01D(t *rapid.T) c01dCase {
 	n := rapid.IntRange(2, 14).Draw(t, "phases")
 	for i := 0; i < n; i++ {
 		switch k := rapid.IntRange(0, 9).Draw(t, "k"); {
+		case k == 8 && rapid.Bool().Draw(t, "rebuild"):
+			c.Phases = append(c.Phases, c01dPhase{K: "rebuild"})
 		case k < 5:
 			c.Phases = append(c.Phases, c01dPhase{K: "acq", N: count.Draw(t, "n")})
 		case k < 9:
@@ -64,6 +66,7 @@ func runC01D(_ *testing.T, c c01dCase) kit.Outcome {
 	var busy, limitNow func() int
 	var setLimit func(int)
 	var settable *limit.SettableLimit
+	rebuild := func() error { return nil }
 	switch c.Subject {
 	case "precise":
 		s := strategy.NewPreciseStrategy(c.Limit)
@@ -94,6 +97,15 @@ func runC01D(_ *testing.T, c c01dCase) kit.Outcome {
 			return kit.Outcome{Harness: err.Error()}
 		}
 		acquire = func() (held, bool) { ls, ok := l.Acquire(context.Background()); return held{ls: ls}, ok && ls != nil }
+		// a configuration reload: a new limiter is built around the live strategy and limit while tokens handed out by
+		// the old one are still out (they come back through the old limiter's listeners); the gate is the strategy's
+		rebuild = func() error {
+			nl, err := limiter.NewDefaultLimiter(settable, int64(3600e9), int64(3600e9), 1, 10, st, nil, nil)
+			if err == nil {
+				l = nl
+			}
+			return err
+		}
 		// the limit moves the way a window update moves it: the algorithm's estimate and the strategy together (a
 		// window that closes later on re-applies the same value)
 		setLimit = func(n int) { settable.SetLimit(n); st.SetLimit(n) }
@@ -144,6 +156,10 @@ func runC01D(_ *testing.T, c c01dCase) kit.Outcome {
 				h := toks[k]
 				toks = append(toks[:k], toks[k+1:]...)
 				release(h, ph.Out)
+			}
+		case "rebuild":
+			if err := rebuild(); err != nil {
+				return kit.Outcome{Harness: err.Error()}
 			}
 		case "set":
 			setLimit(ph.N)
